@@ -11,7 +11,7 @@ Definition Inv (s : state) : Prop := where_ok s /\ nodup_ok s /\ ids_ok s.
 Lemma inv_init cp : Inv (init cp).
 Proof.
   split; [|split].
-  - intros o pl H. destruct pl as [|t hi| | | |]; try destruct hi; cbv in H; contradiction.
+  - intros o pl H. destruct pl as [|t hi| | | | |]; try destruct hi; cbv in H; contradiction.
   - repeat split; intros; try destruct hi; cbv; constructor.
   - repeat split; intros; simpl in *; try contradiction; try discriminate; reflexivity.
 Qed.
@@ -21,12 +21,13 @@ Lemma static_where_nodup s s' :
   where_ok s -> nodup_ok s ->
   (forall t hi, vchan s' t hi = vchan s t hi) -> (forall c, vrecv s' c = vrecv s c) ->
   (forall c, vhold s' c = vhold s c) -> (forall c, vheld s' c = vheld s c) -> vpend s' = vpend s ->
+  (forall k, vxhold s' k = vxhold s k) ->
   (forall o, o_where (go s' o) = o_where (go s o)) ->
   where_ok s' /\ nodup_ok s'.
 Proof.
-  intros W (N1 & N2 & N3 & N4) H1 H2 H3 H4 H5 H6. split.
+  intros W (N1 & N2 & N3 & N4) H1 H2 H3 H4 H5 H7 H6. split.
   - intros o pl Hocc. rewrite H6. apply W.
-    destruct pl; simpl in *; rewrite ?H1, ?H2, ?H3, ?H4, ?H5 in Hocc; exact Hocc.
+    destruct pl; simpl in *; rewrite ?H1, ?H2, ?H3, ?H4, ?H5, ?H7 in Hocc; exact Hocc.
   - repeat split; intros; rewrite ?H1, ?H2, ?H4, ?H5; auto.
 Qed.
 
@@ -78,12 +79,12 @@ Lemma static_all s s' :
   Inv s ->
   (forall t hi, vchan s' t hi = vchan s t hi) -> (forall c, vrecv s' c = vrecv s c) ->
   (forall c, vhold s' c = vhold s c) -> (forall c, c_held (gc s' c) = c_held (gc s c)) ->
-  vpend s' = vpend s -> (forall o, go s' o = go s o) ->
+  vpend s' = vpend s -> (forall k, vxhold s' k = vxhold s k) -> (forall o, go s' o = go s o) ->
   Inv s'.
 Proof.
-  intros (W & N & I) H1 H2 H3 H4 H5 H6.
+  intros (W & N & I) H1 H2 H3 H4 H5 H7 H6.
   assert (H4' : forall c, vheld s' c = vheld s c) by (intros; unfold vheld; rewrite H4; reflexivity).
-  destruct (static_where_nodup s s' W N H1 H2 H3 H4' H5) as [W' N']; [intros; rewrite H6; reflexivity|].
+  destruct (static_where_nodup s s' W N H1 H2 H3 H4' H5 H7) as [W' N']; [intros; rewrite H6; reflexivity|].
   split; [exact W'|split; [exact N'|]].
   revert I; ids_intro. repeat split; intros; rewrite ?H6 in *; rewrite ?H4 in *; eauto.
   - apply I3; auto.
@@ -91,13 +92,14 @@ Proof.
 Qed.
 
 Ltac view_goals :=
-  unfold vchan, vrecv, vhold, vheld, vpend; intros; autorewrite with frame; eqb_cases; simpl;
+  unfold vchan, vrecv, vhold, vheld, vpend, vxhold; intros; autorewrite with frame; eqb_cases; simpl;
   rewrite ?vchan_set_chan, ?vchan_close_topic, ?aget_map_close_view; auto.
 
 Lemma inv_static_events s e s' :
   Inv s -> step s e = Some s' ->
   match e with
-  | ESub _ _ | EPumpExit _ | ERecvClosed _ | ECloseNoop _ | ECloseBegin _ | ECloseEnd _ | ECloseQueue => True
+  | ESub _ _ | EPumpExit _ | ERecvClosed _ | ECloseNoop _ | ECloseBegin _ | ECloseEnd _ | ECloseQueue
+  | ESub2 _ _ _ | EXExit _ | EClosePanic _ | ECloseQBegin | ECloseQEnd => True
   | ESend _ _ _ _ r => r <> SOk
   | EWait _ _ _ r => match r with WGot _ => False | _ => True end
   | _ => False
@@ -109,6 +111,9 @@ Proof.
     try match goal with r : wres |- _ => destruct r; try contradiction end;
     step_inv H; try exact I; try congruence;
     try (match goal with E : sres_eqb _ _ = true |- _ => simpl in E; discriminate E end);
-    (apply (static_all s); [exact I| | | | | |]; view_goals);
-    repeat match goal with E : c_hold _ = None |- _ => rewrite E; clear E end; auto.
+    (apply (static_all s); [exact I| | | | | | |]; view_goals);
+    repeat match goal with
+           | E : c_hold _ = None |- _ => rewrite E; clear E
+           | E : x_hold _ = None |- _ => rewrite E; clear E
+           end; auto.
 Qed.
